@@ -11,6 +11,7 @@ import (
 	"os"
 	"path/filepath"
 	"runtime"
+	"runtime/pprof"
 	"strconv"
 	"time"
 
@@ -44,6 +45,11 @@ func main() {
 		return
 	}
 	if *worker {
+		if pf := os.Getenv("VERIF_PROF"); pf != "" {
+			f, _ := os.Create(pf)
+			pprof.StartCPUProfile(f)
+			defer pprof.StopCPUProfile()
+		}
 		explore.WorkerMain(*prop, *tier, *idx, *n, *seed, *deadline, *after, *replay, *region)
 		return
 	}
